@@ -987,7 +987,7 @@ func opcodeSplit(op *ParsedOpcode, t *thread) error {
 		return err
 	}
 
-	if n.Int32() > int32(len(c)) {
+	if n.GreaterThanInt(int64(len(c))) {
 		return errs.NewError(errs.ErrNumberTooBig, "n is larger than length of array")
 	}
 	if n.LessThanInt(0) {
